@@ -201,8 +201,14 @@ impl<'a> G<'a> {
         }
         let mut ss = Vec::with_capacity(n);
         let mut hs = Vec::with_capacity(n);
+        // rarely: unreduced scalars (public-API inputs whose result C04 does not decide; configurations must still agree)
+        let unreduced_mode = self.rng.chance(1, 10);
+        if unreduced_mode {
+            bump(&mut self.c, "probe:msm_with_unreduced_scalars");
+        }
         for _ in 0..n {
-            ss.push(self.scalar_canon());
+            let s = if unreduced_mode { self.scalar(true) } else { self.scalar_canon() };
+            ss.push(s);
             hs.push(Some(live[self.rng.below(live.len() as u64) as usize]));
         }
         if entry == 2 && n > 0 && self.rng.chance(3, 10) {
@@ -390,7 +396,12 @@ impl<'a> G<'a> {
                 if g == 0 {
                     { let st__ = Step::Pred { a }; self.emit(st__); }
                 } else {
-                    let n = self.rng.below(6) as usize;
+                    let mut n = self.rng.below(6) as usize;
+                    if self.rng.chance(1, 40) {
+                        // longer than anything the repository's tests use
+                        n = [1023usize, 1024, 1025, 1500, 2049][self.rng.below(5) as usize];
+                        bump(&mut self.c, "probe:batch_longer_than_1024");
+                    }
                     let live = self.live(1);
                     let mut hs: Vec<H> = (0..n).map(|_| live[self.rng.below(live.len() as u64) as usize]).collect();
                     if self.rng.chance(1, 3) {
